@@ -42,12 +42,14 @@ func checkPub(pk *secec.PublicKey, q ref.Pt) string {
 		return "Point(): " + m
 	}
 	// the hidden point and the cached bytes agree (hook: field access only)
-	ip, ib := secec.VerifPubInternals(pk)
-	if m := lib.CheckPointLight(ip, q); m != "" {
-		return "internal point: " + m
-	}
-	if !bytes.Equal(ib, q.Uncompressed()) {
-		return "cached pointBytes differ from the encoding of the underlying point"
+	if h := secec.VerifPubInternals; h != nil {
+		ip, ib := h(pk)
+		if m := lib.CheckPointLight(ip, q); m != "" {
+			return "internal point: " + m
+		}
+		if !bytes.Equal(ib, q.Uncompressed()) {
+			return "cached pointBytes differ from the encoding of the underlying point"
+		}
 	}
 	re, err := secec.ParseASN1PublicKey(pk.ASN1Bytes())
 	if err != nil || !re.Equal(pk) || !pk.Equal(re) {
@@ -160,8 +162,10 @@ func runPriv(b []byte) string {
 	if m := checkPub(k.PublicKey(), ref.BaseMul(v)); m != "" {
 		return "public key: " + m
 	}
-	if ds, _ := secec.VerifPrivInternals(k); !bytes.Equal(ds.Bytes(), b) {
-		return "internal scalar differs"
+	if h := secec.VerifPrivInternals; h != nil {
+		if ds, _ := h(k); !bytes.Equal(ds.Bytes(), b) {
+			return "internal scalar differs"
+		}
 	}
 	k2, err := secec.NewPrivateKeyFromScalar(lib.MkSC(v))
 	if err != nil || !k2.Equal(k) || !k.Equal(k2) {
